@@ -142,8 +142,17 @@ func RunC12(st *simcore.Stream, tier, leg string, logOn bool, res *simcore.Resul
 					continue
 				}
 				w.opBegin()
+				// some senders make their FIRST contact with the victim just about when Close runs
+				// (a handshake or a first fragment in flight inside the closing swarm's workers)
+				late := -1
+				if st.Bool(1, 2) {
+					late = closeDelay - 6 + st.Intn(12)
+				}
 				zsimrt.Go("send", func() {
 					defer w.opEnd()
+					for i := 0; i < late; i++ {
+						zsimrt.Yield("harness/first-contact-wait")
+					}
 					for k := 0; k < 1+st.Intn(4); k++ {
 						ctx, cf := context.WithTimeout(context.Background(), time.Minute)
 						if ep.HasAsk() && st.Bool(1, 3) {
